@@ -6,12 +6,11 @@ import Hls.Muxer.Model
   preload-hint handler (`get` on a part path) read.
 * `Same`: two states with the same configuration, path table and per-stream views.
 * `Steps a b`: `b` is obtained from `a` by the muxer's primitive mutations
-  (`createFirstSegmentStream`, `rotatePartsStream … true`, `rotateSegmentsStream`) interleaved with
-  view-preserving changes.  `write_steps`/`run_steps`: every `write` / `run` is such a sequence.  All
-  invariants and monotonicity statements of C06 are proved by induction over `Steps`, so the case
-  analysis of `write` is done exactly once (here).
-* decomposition of `rotateSegmentsStream` into named pieces (`rotateSegmentsStream_eq`, by `rfl`) and
-  closed-form observations of the two rotations.
+  (`createFirstSegment` when no stream has an open segment, `rotatePartsStream … true`,
+  `rotateSegmentsStream`) interleaved with view-preserving changes.  `write_steps`/`run_steps`
+  (`ReqWrite.lean`): every `write` / `run` of a Low-Latency muxer is such a sequence.  All invariants
+  and monotonicity statements of C06 are proved by induction over `Steps`, so the case analysis of
+  `write` is done exactly once.
 
 Helper lemmas only; the property theorems are in `Hls/Props/C06.lean`.
 -/
@@ -156,7 +155,8 @@ theorem same_setStream (st : State) (i : Nat) (s : StreamSt) (h : s.view = (st.s
 inductive Steps : State → State → Prop
   | refl (a : State) : Steps a a
   | same {a b c : State} : Steps a b → Same b c → Steps a c
-  | create {a b : State} (si : Nat) (d n : Int) : Steps a b → Steps a (createFirstSegmentStream b si d n)
+  | createAll {a b : State} (d n : Int) : Steps a b → (∀ i, (b.stream i).nextSegment = none) →
+      Steps a (createFirstSegment b d n)
   | rotP {a b : State} (si : Nat) (d : Int) : Steps a b → Steps a (rotatePartsStream b si d true)
   | rotS {a b : State} (si : Nat) (d n : Int) (f : Bool) : Steps a b → Steps a (rotateSegmentsStream b si d n f)
 
@@ -164,266 +164,10 @@ theorem Steps.trans {a b c : State} (h1 : Steps a b) (h2 : Steps b c) : Steps a 
   induction h2 with
   | refl => exact h1
   | same _ hs ih => exact .same ih hs
-  | create si d n _ ih => exact .create si d n ih
+  | createAll d n _ hg ih => exact .createAll d n ih hg
   | rotP si d _ ih => exact .rotP si d ih
   | rotS si d n f _ ih => exact .rotS si d n f ih
 
 theorem Steps.of_same {a b : State} (h : Same a b) : Steps a b := .same (.refl a) h
-
-/-! ## `write` is a sequence of primitive steps -/
-
-theorem createFirstSegment_steps (st : State) (d n : Int) : Steps st (createFirstSegment st d n) := by
-  unfold createFirstSegment
-  exact foldl_pres (Steps st) _ _ _ (.refl st) (fun b a hb => .create a d n hb)
-
-theorem rotateParts_steps (st : State) (d : Int) : Steps st (rotateParts st d) := by
-  unfold rotateParts
-  apply foldl_pres (Steps st)
-  · exact .rotP _ d (.refl st)
-  · intro b a hb
-    simp only
-    split
-    · exact hb
-    · refine .same (.rotP a d hb) (same_setStream _ _ _ rfl)
-
-theorem rotateSegments_steps (st : State) (d n : Int) (f : Bool) : Steps st (rotateSegments st d n f) := by
-  unfold rotateSegments
-  apply foldl_pres (Steps st)
-  · exact .rotS _ d n f (.refl st)
-  · intro b a hb
-    simp only
-    split
-    · exact hb
-    · refine .same (.rotS a d n f hb) (same_setStream _ _ _ rfl)
-
-theorem adjustPartDuration_same (st : State) (x : Int) : Same st (adjustPartDuration st x) := by
-  unfold adjustPartDuration
-  split
-  · exact .refl _
-  · split
-    · exact .refl _
-    · split
-      · exact .refl _
-      · exact ⟨rfl, rfl, rfl, fun _ => rfl⟩
-
-theorem partWriteSample_same (st : State) (ti : Nat) (smp : Sample) : Same st (partWriteSample st ti smp).1 := by
-  unfold partWriteSample
-  simp only
-  split
-  · rename_i seg part h1 h2
-    split
-    · exact .refl _
-    · simp only
-      refine (same_setTrack st ti _).trans (same_setStream _ _ _ ?_)
-      show _ = (st.stream (st.streamOf ti)).view
-      simp only [StreamSt.view, h1, h2]
-      split <;> rfl
-  · exact .refl _
-
-theorem steps_ite {a x y : State} (c : Prop) [Decidable c] (hx : Steps a x) (hy : Steps a y) :
-    Steps a (if c then x else y) := by
-  split <;> assumption
-
-/-- the part of `fmp4WriteSample` after the sample has been appended to the open part (leading track) -/
-def fwTail0 (st : State) (ra changed : Bool) (smp : Sample) (rate segStart partStart : Int) : State × WriteRes :=
-  let nd := toDur smp.dts rate
-  if ra && (changed || decide (nd - segStart ≥ st.cfg.segmentMinDur)) then
-    let st := rotateSegments st nd smp.ntp changed
-    let st := if changed then { st with freeze := false, durs := [] } else { st with freeze := true }
-    (st, .ok)
-  else if st.cfg.variant = .ll ∧ nd - partStart ≥ st.adjusted then
-    (rotateParts st nd, .ok)
-  else (st, .ok)
-
-def fwTail (st : State) (si : Nat) (ra changed : Bool) (smp : Sample) (rate : Int) : State × WriteRes :=
-  let s := st.stream si
-  fwTail0 st ra changed smp rate (match s.nextSegment with | some g => g.startDTS | none => 0)
-    (match s.nextPart with | some p => p.startDTS | none => 0)
-
-def fwMid (st : State) (ti si : Nat) (lead ra changed : Bool) (smp old : Sample) (rate : Int) : State × WriteRes :=
-  match partWriteSample st ti old with
-  | (st, .err) => (st, .err)
-  | (st, .ok) => if !lead then (st, .ok) else fwTail st si ra changed smp rate
-
-def fwPre (st : State) (lead hasSeg : Bool) (old : Sample) (duration rate : Int) : State :=
-  let st := if lead && !hasSeg then createFirstSegment st (toDur old.dts rate) old.ntp else st
-  if lead then adjustPartDuration st (toDur duration rate) else st
-
-theorem fmp4Write_eq (st : State) (ti : Nat) (ra changed : Bool) (smp0 : Sample) :
-    fmp4Write st ti ra changed smp0 =
-      (let rate := (st.tcfg ti).clockRate
-       let smp := { smp0 with dts := smp0.dts + toTs fmp4StartDTS rate }
-       if smp.dts < 0 then (st, .ok) else
-       let t := st.track ti
-       let st := st.setTrack ti { t with next := some smp }
-       match t.next with
-       | none => (st, .ok)
-       | some old =>
-         let duration := smp.dts - old.dts
-         let old := { old with dur := duration % 4294967296 }
-         let si := st.streamOf ti
-         let lead := st.isLeadingTrack ti
-         let hasSeg := (st.stream si).nextSegment.isSome
-         if !lead && !hasSeg then (st, .ok) else
-         fwMid (fwPre st lead hasSeg old duration rate) ti si lead ra changed smp old rate) := rfl
-
-theorem fwTail_steps (st : State) (si : Nat) (ra changed : Bool) (smp : Sample) (rate : Int) :
-    Steps st (fwTail st si ra changed smp rate).1 := by
-  unfold fwTail
-  simp only
-  generalize (match (st.stream si).nextSegment with | some g => g.startDTS | none => 0) = a
-  generalize (match (st.stream si).nextPart with | some p => p.startDTS | none => 0) = b
-  unfold fwTail0
-  simp only
-  split
-  · cases changed
-    · exact .same (rotateSegments_steps _ _ _ _) ⟨rfl, rfl, rfl, fun _ => rfl⟩
-    · exact .same (rotateSegments_steps _ _ _ _) ⟨rfl, rfl, rfl, fun _ => rfl⟩
-  · split
-    · exact rotateParts_steps _ _
-    · exact .refl _
-
-theorem fwMid_steps (st : State) (ti si : Nat) (lead ra changed : Bool) (smp old : Sample) (rate : Int) :
-    Steps st (fwMid st ti si lead ra changed smp old rate).1 := by
-  unfold fwMid
-  have h := partWriteSample_same st ti old
-  split
-  · rename_i st2 heq
-    rw [heq] at h; exact .of_same h
-  · rename_i st2 heq
-    rw [heq] at h
-    split
-    · exact .of_same h
-    · exact (Steps.of_same h).trans (fwTail_steps _ _ _ _ _ _)
-
-theorem fwPre_steps (st : State) (lead hasSeg : Bool) (old : Sample) (duration rate : Int) :
-    Steps st (fwPre st lead hasSeg old duration rate) := by
-  unfold fwPre
-  simp only
-  have h1 : Steps st (if (lead && !hasSeg) = true then createFirstSegment st (toDur old.dts rate) old.ntp else st) :=
-    steps_ite _ (createFirstSegment_steps _ _ _) (.refl _)
-  split
-  · exact .same h1 (adjustPartDuration_same _ _)
-  · exact h1
-
-theorem fmp4Write_steps (st : State) (ti : Nat) (ra changed : Bool) (smp : Sample) :
-    Steps st (fmp4Write st ti ra changed smp).1 := by
-  rw [fmp4Write_eq]
-  simp only
-  split
-  · exact .refl _
-  · split
-    · exact .of_same (same_setTrack _ _ _)
-    · split
-      · exact .of_same (same_setTrack _ _ _)
-      · exact ((Steps.of_same (same_setTrack _ _ _)).trans (fwPre_steps _ _ _ _ _ _)).trans (fwMid_steps _ _ _ _ _ _ _ _ _)
-
-theorem fmp4WriteMany_steps (st : State) (ti : Nat) (l : List Sample) :
-    Steps st (fmp4WriteMany st ti l).1 := by
-  induction l generalizing st with
-  | nil => exact .refl _
-  | cons s rest ih =>
-    unfold fmp4WriteMany
-    have h := fmp4Write_steps st ti true false s
-    split
-    · rename_i st2 heq; rw [heq] at h; exact h
-    · rename_i st2 heq; rw [heq] at h; exact h.trans (ih st2)
-
-theorem tsWrite_same (st : State) (u : TsUnit) (size : Nat) (e : Option Int) (c : Bool) :
-    Same st (tsWrite st u size e c).1 := by
-  unfold tsWrite
-  simp only
-  split
-  · exact .refl _
-  · rename_i seg hseg
-    split
-    · exact .refl _
-    · refine same_setStream _ _ _ ?_
-      simp only [StreamSt.view, hseg]
-      cases e <;> cases c <;> rfl
-
-theorem paramsStep_same (st : State) (ti par : Nat) (ra : Bool) : Same st (paramsStep st ti par ra).1 := by
-  unfold paramsStep
-  simp only
-  split <;> split <;> exact ⟨rfl, rfl, rfl, fun _ => rfl⟩
-
-local macro "h264_tail " h:ident : tactic => `(tactic|
-  (have h3 := fun i t => Steps.trans $h (Steps.of_same (same_setTrack _ i t))
-   split
-   · refine Steps.trans ?_ (Steps.of_same (tsWrite_same _ _ _ _ _))
-     split
-     · exact Steps.trans (h3 _ _) (createFirstSegment_steps _ _ _)
-     · split
-       · exact Steps.trans (h3 _ _) (rotateSegments_steps _ _ _ _)
-       · exact h3 _ _
-   · exact Steps.trans (h3 _ _) (fmp4Write_steps _ _ _ _ _)))
-
-theorem write_steps (st : State) (op : WriteOp) : Steps st (write st op).1 := by
-  unfold write
-  simp only
-  split
-  · -- h264
-    split
-    · split <;> first | exact .refl _ | exact .of_same ⟨rfl, rfl, rfl, fun _ => rfl⟩
-    · have hp := paramsStep_same st op.track op.par op.ra
-      generalize paramsStep st op.track op.par op.ra = pr at hp
-      obtain ⟨st1, changed⟩ := pr
-      simp only at hp ⊢
-      split
-      · exact .of_same hp
-      · have h2 := Steps.of_same (hp.trans (same_setTrack st1 op.track
-            { st1.track op.track with firstRA := true,
-                                       extrSPS := (st1.track op.track).extrSPS || decide (op.par ≠ 0) }))
-        split
-        · exact h2
-        · split
-          · split
-            · exact h2
-            · h264_tail h2
-          · split
-            · exact h2
-            · h264_tail h2
-  · -- h265 / vp9
-    have hp := paramsStep_same st op.track op.par op.ra
-    generalize paramsStep st op.track op.par op.ra = pr at hp
-    obtain ⟨st1, changed⟩ := pr
-    simp only at hp ⊢
-    split
-    · exact .of_same hp
-    · exact (Steps.of_same (hp.trans (same_setTrack _ _ _))).trans (fmp4Write_steps _ _ _ _ _)
-  · have hp := paramsStep_same st op.track op.par op.ra
-    generalize paramsStep st op.track op.par op.ra = pr at hp
-    obtain ⟨st1, changed⟩ := pr
-    simp only at hp ⊢
-    split
-    · exact .of_same hp
-    · exact (Steps.of_same (hp.trans (same_setTrack _ _ _))).trans (fmp4Write_steps _ _ _ _ _)
-  · -- av1
-    have hp := paramsStep_same st op.track op.par op.ra
-    generalize paramsStep st op.track op.par op.ra = pr at hp
-    obtain ⟨st1, changed⟩ := pr
-    simp only at hp ⊢
-    split
-    · exact .of_same hp
-    · exact (Steps.of_same (hp.trans (same_setTrack _ _ _))).trans (fmp4Write_steps _ _ _ _ _)
-  · exact fmp4WriteMany_steps _ _ _
-  · -- aac
-    split
-    · split
-      · exact .refl _
-      · refine Steps.trans ?_ (Steps.of_same (tsWrite_same _ _ _ _ _))
-        split
-        · split
-          · exact createFirstSegment_steps _ _ _
-          · split
-            · exact rotateSegments_steps _ _ _ _
-            · exact .refl _
-        · exact .refl _
-    · exact fmp4WriteMany_steps _ _ _
-
-theorem run_steps (st : State) (ops : List WriteOp) : Steps st (run st ops) := by
-  induction ops generalizing st with
-  | nil => exact .refl _
-  | cons op ops ih => exact (write_steps st op).trans (ih _)
 
 end Hls.Muxer
